@@ -55,7 +55,7 @@ def run(ctx, res):
     OKV = mres["mtbl_res_success"]
     seek = prog.need("merger_iter_seek", U)
     res.saw(seek)
-    ev = APE.run(prog, cg, seek, bound=1)
+    ev = APE.run(prog, cg, seek, bound=APE.BOUND)
     res.floor("C05.R2", 4)
     res.floor("C05.R3", 2)
     res.floor("C05.R4", 2)
@@ -180,7 +180,7 @@ def run(ctx, res):
         res.check(okl, "C05.R1", site(f, "all-sources-loop"), "loop visits sources 0..size-1",
                   "the per-source loop does not cover every source", f.loc(f.body))
         # paths: non-NULL iterator -> iter_vec_add and merger_iter_add_entry with it
-        evp = APE.run(prog, cg, f, bound=1)
+        evp = APE.run(prog, cg, f, bound=APE.BOUND)
         for p in evp.paths:
             evs = [e for e in p.events if e.kind == "call"]
             for i, e in enumerate(evs):
